@@ -15,6 +15,13 @@ type lockState struct {
 	vc      []int
 }
 
+type onceState struct {
+	phase   int // 0 new, 1 running, 2 done
+	owner   *goroutine
+	waiters []*goroutine
+	vc      []int
+}
+
 type wgState struct {
 	waiters []*goroutine
 	vc      []int
@@ -22,8 +29,7 @@ type wgState struct {
 
 type syncTables struct {
 	locks  map[*value]*lockState
-	once   map[*value]bool
-	onceVC map[*value]*[]int
+	onceSt map[*value]*onceState
 	wg     map[*value]int
 	wgs    map[*value]*wgState
 	conds  map[*value]*condState
@@ -46,7 +52,7 @@ type condState struct {
 
 func (i *interpreter) syncT() *syncTables {
 	if i.syncTab == nil {
-		i.syncTab = &syncTables{locks: map[*value]*lockState{}, once: map[*value]bool{}, onceVC: map[*value]*[]int{},
+		i.syncTab = &syncTables{locks: map[*value]*lockState{}, onceSt: map[*value]*onceState{},
 			wg: map[*value]int{}, wgs: map[*value]*wgState{}, conds: map[*value]*condState{}, atoms: map[*value]*[]int{}}
 	}
 	return i.syncTab
@@ -92,27 +98,49 @@ func (i *interpreter) onceDo(fr *frame, p *value, f value) value {
 	if i.sched != nil {
 		i.sched.yield(i, "once")
 	}
-	if t.once[p] || i.onceInit[p] {
+	if i.onceInit[p] {
+		return nil
+	}
+	st := t.onceSt[p]
+	if st == nil {
+		st = &onceState{}
+		t.onceSt[p] = st
+	}
+	for st.phase == 1 {
+		// another goroutine is running f: the real Once blocks until it returns
+		if i.sched == nil || st.owner == i.sched.cur {
+			i.deadlock("sync.Once.Do called re-entrantly from its own function")
+		}
+		st.waiters = append(st.waiters, i.sched.cur)
+		i.sched.block("Once.Do")
+	}
+	if st.phase == 2 {
 		if i.sched != nil {
-			if vc := t.onceVC[p]; vc != nil {
-				i.sched.acquire(*vc)
-			}
+			i.sched.acquire(st.vc)
 		}
 		return nil
 	}
 	if i.inInit {
 		i.onceInit[p] = true
-	} else {
-		t.once[p] = true
+		i.call(fr, 0, f, nil)
+		return nil
 	}
-	// note: a second goroutine arriving while f runs would block in the real Once; the model
-	// runs f without yielding inside Do only if f itself does not synchronise.
-	i.call(fr, 0, f, nil)
+	st.phase = 1
 	if i.sched != nil {
-		vc := []int{}
-		t.onceVC[p] = &vc
-		i.sched.release(t.onceVC[p])
+		st.owner = i.sched.cur
 	}
+	defer func() {
+		// Do marks the Once done even if f panics
+		st.phase = 2
+		if i.sched != nil {
+			i.sched.release(&st.vc)
+			for _, g := range st.waiters {
+				i.sched.wake(g)
+			}
+			st.waiters = nil
+		}
+	}()
+	i.call(fr, 0, f, nil)
 	return nil
 }
 
